@@ -223,6 +223,55 @@ theorem inv_badCommit {st : St} (hr : st.phase = .running) (hn : st.inflight = n
   case opened_vol => not_running hr
   all_goals assumption
 
+/-- the head moved onto the unreadable entry `consumed + 1`, nothing else changed (`partition.replica`
+when `GetMessage` fails: no `Replica`, hence no `CommitSequence`) -/
+theorem inv_headBad {st : St} (hr : st.phase = .running) (hn : st.inflight = none)
+    (hwg : st.walGone = false)
+    (hle : st.consumed + 1 ≤ st.appended) (hb : Bad st (st.consumed + 1)) (h : Inv st) :
+    Inv { st with consumed := st.consumed + 1 } := by
+  obtain ⟨h1, h2, h3, h4, h5, h6, h7, h8, h9, h10, h11, h12, h13, h14, h15, h16, h17, h18, h19, h20, h21, h22⟩ := h
+  have hidle := h9 hr hn
+  constructor
+  case ack_cons => simp only []; omega
+  case cons_app => simp [St.appended] at hle ⊢; omega
+  case idle =>
+    intro _ _ s hs hs'
+    have hs2 : ov st.seq < s := hs
+    have hs3 : s ≤ st.consumed + 1 := hs'
+    by_cases he : s = st.consumed + 1
+    · subst he; exact hb
+    · exact hidle s hs2 (by omega)
+  case infl => intro fl hfl; simp only [] at hfl; rw [hn] at hfl; cases hfl
+  case wal_gone => intro hh; have hh' : st.walGone = true := hh; rw [hwg] at hh'; cases hh'
+  all_goals assumption
+
+theorem inv_applyGetFail (cfg : Cfg) (hc : cfg.ignoreExact = true) {st : St} (hr : st.phase = .running)
+    (hwg : st.walGone = false) (h : Inv st) : Inv (doApplyGetFail cfg st) := by
+  unfold doApplyGetFail
+  split
+  case isFalse => exact h
+  case isTrue hg =>
+    obtain ⟨hnone, hle, hlog⟩ := hg
+    have hnone' : st.inflight = none := by simpa using hnone
+    have hs0 : 0 ≤ st.consumed + 1 := by have := h.ack_lo; have := h.ack_cons; omega
+    have hb : Bad st (st.consumed + 1) := ⟨hs0, hlog⟩
+    exact inv_ignore cfg hc _ (inv_headBad hr hnone' hwg hle hb h) ⟨hs0, hlog⟩
+
+theorem inv_applyNoRows {st : St} (hr : st.phase = .running)
+    (hwg : st.walGone = false) (h : Inv st) : Inv (doApplyNoRows st) := by
+  unfold doApplyNoRows
+  split
+  case isFalse => exact h
+  case isTrue hg =>
+    obtain ⟨hnone, hle, hlog⟩ := hg
+    have hnone' : st.inflight = none := by simpa using hnone
+    have hs0 : 0 ≤ st.consumed + 1 := by have := h.ack_lo; have := h.ack_cons; omega
+    have hb : Bad st (st.consumed + 1) := ⟨hs0, hlog⟩
+    split
+    case isTrue hv =>
+      exact inv_badCommit hr hnone' hle hb ((validSeq_iff st _ hs0).mp hv) h
+    case isFalse hv => exact inv_headBad hr hnone' hwg hle hb h
+
 theorem inv_applyBegin (cfg : Cfg) (hc : cfg.ignoreExact = true) {st : St} (hr : st.phase = .running)
     (hwg : st.walGone = false) (h : Inv st) : Inv (doApplyBegin cfg st) := by
   unfold doApplyBegin
@@ -1040,6 +1089,18 @@ theorem inv_step (cfg : Cfg) (hx : cfg.ignoreExact = true) {st : St} (e : Ev) (h
       · exact h
       · exact inv_applyBegin cfg hx ‹_› (by simpa using ‹¬ st.walGone = true›) h
     · exact h
+  case applyGetFail =>
+    split
+    · split
+      · exact h
+      · exact inv_applyGetFail cfg hx ‹_› (by simpa using ‹¬ st.walGone = true›) h
+    · exact h
+  case applyNoRows =>
+    split
+    · split
+      · exact h
+      · exact inv_applyNoRows ‹_› (by simpa using ‹¬ st.walGone = true›) h
+    · exact h
   case applyTake =>
     split
     · exact inv_applyTake cfg ‹_› h
@@ -1145,6 +1206,22 @@ theorem taken_acquired_step (cfg : Cfg) (hc : cfg.atomicAcquire = true) {st : St
               · rw [ignoreMsg_eq]; exact h
               · exact h
         · exact h
+    · exact h
+  case applyGetFail =>
+    split
+    · split
+      · exact h
+      · unfold doApplyGetFail
+        split
+        · rw [ignoreMsg_eq]; exact h
+        · exact h
+    · exact h
+  case applyNoRows =>
+    split
+    · split
+      · exact h
+      · unfold doApplyNoRows
+        (repeat' split) <;> exact h
     · exact h
   case applyTake =>
     split
